@@ -46,7 +46,11 @@ class Ctx:
 
 def build(ctx, rng, cond, shape=(3, 2, 2)):
     nd, np_, nc = shape
-    a = Array(ctx.binary, nd=nd, np_=np_, ncontent=nc, shim=ctx.shim, pool=True)
+    a = Array(ctx.binary, nd=nd, np_=np_, ncontent=nc, shim=ctx.shim, pool=True, splits=2 if cond == 'parity_split_missing' else 1)
+    # a sentinel directory outside the data disks but inside the snapshot: nothing may ever change there
+    os.makedirs(os.path.join(a.root, 'outside'))
+    open(os.path.join(a.root, 'outside', 'target'), 'wb').write(rng.randbytes(6000))
+    os.utime(os.path.join(a.root, 'outside', 'target'), ns=((T0 - 500) * 10**9 + 5, (T0 - 500) * 10**9 + 5))
     L.populate(a, rng)
     for di, d in enumerate(a.disks):
         a.write(d, 'z%d' % di, rng.randbytes(1500), mtime_ns=(T0 + 1000 + di) * 10**9)        # nanoseconds = 0: touch candidates
@@ -79,6 +83,14 @@ def build(ctx, rng, cond, shape=(3, 2, 2)):
         os.unlink(a.path(a.disks[0], 'hl0'))                       # hardlink missing
         if rng.random() < 0.5:
             a.write(a.disks[0], 'hl0', b'an independent file')     # ... or replaced by a file of its own
+    elif cond == 'parity_split_missing':
+        # one file of a split parity level is missing (the unused second file, or the first one holding the parity)
+        os.unlink(a.parity_files[rng.randrange(np_)][rng.randrange(2)])
+    elif cond == 'file_symlinked':
+        # recorded non-empty files replaced by symbolic links: to a file outside the array, to another recorded file, dangling
+        for d, n, to in ((a.disks[0], 'a0', os.path.join(a.root, 'outside', 'target')), (a.disks[1], 'f1', 'a1'), (a.disks[nd - 1], 'dir/b%d' % (nd - 1), '/nowhere/at/all')):
+            os.unlink(a.path(d, n))
+            os.symlink(to, a.path(d, n))
     elif cond == 'data_and_parity_damaged':
         # silent damage in data AND in the parity of the same stripes: fix has to find out which is wrong
         for d, n, off in ((a.disks[0], 'a0', 7), (a.disks[1], 'f1', 2100)):
@@ -167,7 +179,8 @@ def build(ctx, rng, cond, shape=(3, 2, 2)):
 
 
 CONDS_QUICK = ['healthy', 'unsynced', 'damaged', 'disk_emptied', 'parity_deleted', 'content_deleted', 'parity_damaged', 'links_damaged',
-               'sizes_changed', 'hardlinks_damaged', 'partial_sync', 'never_synced', 'data_and_parity_damaged', 'killed_sync']
+               'sizes_changed', 'hardlinks_damaged', 'partial_sync', 'never_synced', 'data_and_parity_damaged', 'killed_sync',
+               'parity_split_missing', 'file_symlinked']
 
 RO_CMDS = [('status', []), ('diff', []), ('list', []), ('dup', []), ('check', []), ('check', ['-a']), ('check', ['-v']),
            ('check', ['-f', '/a0']), ('check', ['-d', 'd1']), ('check', ['-m']), ('check', ['-e']), ('check', ['-a', '-d', 'd2']),
@@ -359,6 +372,13 @@ def judge(ctx, a, paths, o, cond, st_before, replay, ignore=()):
             if cmd not in ('scrub', 'sync', 'touch'):
                 bad('snap_content', 'content copy %d changed (%s)' % (cl[1], what))
             continue
+        if t == 'parity' and what in ('created-file', 'removed-file'):
+            l = cl[1]
+            if what == 'created-file' and (cmd == 'sync' or (cmd == 'fix' and not parity_excluded_py(opts, l))):
+                continue      # parity_create: a missing parity file of a level the command may write appears (empty or filled)
+            bad('snap_parity_entry', 'parity file %s %s (%d bytes) by a command that may not write this level'
+                % (os.path.basename(b4), 'created' if what == 'created-file' else 'removed', af))
+            continue
         if t == 'parity':
             l = cl[1]
             if cmd == 'sync':
@@ -547,6 +567,9 @@ def extend_summary(ctx, a, paths, cmd, opts, d, cond, o_before_snapshot, faulty)
         unk.append('fix_parity'); space['fix_parity'] = subsets
         if anyd:
             unk.append('_fix_unrec'); space['_fix_unrec'] = [False, True]
+        if any(kind_ == 'file' and os.path.islink(a.path(a.disks[di_], rel_)) for (di_, rel_), (kind_, e_) in rec.items()):
+            # handle_create refuses to follow a link (O_NOFOLLOW): fix stops there with an error; what was examined before stays
+            unk.append('_fix_bail'); space['_fix_bail'] = [False, True]
     return d
 
 
@@ -570,6 +593,10 @@ def completions(d):
         dd = dict(d)
         for k, v in combo:
             dd[k] = v
+        if dd.get('_fix_bail'):
+            dd['fix_items'] = [dict(it, selected=False) for it in dd['fix_items']]
+            dd['check_errors'] = True
+            dd['fix_parity'] = []
         if dd.get('_fix_unrec'):
             items = [dict(it) for it in dd['fix_items']]
             for it in items:
@@ -932,9 +959,12 @@ def main(tier, replay=None):
                         FIX_CMDS[2 + (k + 7) % (len(FIX_CMDS) - 2)]] + OTHER_CMDS
                 if cond in ('hardlinks_damaged', 'links_damaged', 'sizes_changed'):
                     pick += [('fix', ['-f', '/hl0', '-f', '/e00']), ('fix', ['-v'])]
-                if cond in ('parity_damaged', 'parity_deleted'):
-                    # levels excluded by the filters must stay untouched however wrong they are
-                    pick += [('fix', ['-d', 'd1']), ('fix', ['-f', '/a0']), ('fix', ['-d', 'd2', '-d', '2-parity'])]
+                if cond in ('parity_damaged', 'parity_deleted', 'parity_split_missing'):
+                    # levels excluded by the filters must stay untouched however wrong (or missing) they are
+                    pick += [('fix', ['-d', 'd1']), ('fix', ['-f', '/a0']), ('fix', ['-d', 'd2', '-d', '2-parity']), ('fix', ['-m']), ('fix', ['-e']),
+                             ('fix', ['-d', 'parity']), ('check', ['-d', 'd1'])]
+                if cond == 'file_symlinked':
+                    pick += [('fix', ['-e']), ('fix', ['-f', '/a0']), ('fix', ['-f', '/f1']), ('fix', ['-d', 'd1']), ('fix', ['-m']), ('check', []), ('sync', ['-h'])]
                 muts = list(dict.fromkeys((c, tuple(o)) for c, o in pick))
             for cmd, opts in muts:
                 then = None
